@@ -82,6 +82,9 @@ func newYarnSpinnerFunction(function any) (YarnSpinnerFunction, error) {
 	if functionType == nil || functionType.Kind() != reflect.Func {
 		return nil, fmt.Errorf("newYarnSpinnerFunction expects an argument which is a function")
 	}
+	if reflect.ValueOf(function).IsNil() {
+		return nil, fmt.Errorf("newYarnSpinnerFunction expects a function which is not nil")
+	}
 
 	returnSignature, err := checkFunctionOutputParameters(functionType)
 	if err != nil {
